@@ -35,6 +35,24 @@ def main(argv=None):
     try:
         b = Build()
         mod.run(ck, b)
+        from .build import optlevel_conditionals
+        hits = optlevel_conditionals(b.repo)
+        if hits:
+            # the library selects code by optimisation level: the source-shaped form (compiled without optimisation) and the shipped -O3 objects
+            # are different programs there.  Everything is decided a second time with the optimised build's predefined macros.
+            ck.note("conditional compilation on optimisation-level macros at %s: all rules run again in the optimised preprocessor configuration" % ", ".join(hits[:4]))
+            b2 = Build(extra_n0=["-D__OPTIMIZE__=1", "-U__NO_INLINE__"])
+            mod.run(ck, b2)
+            srcs = ""
+            for h_ in hits:
+                try:
+                    srcs += open(os.path.join(b.repo, h_.split(":")[0]), errors="replace").read()
+                except OSError:
+                    pass
+            if "__OPTIMIZE_SIZE__" in srcs:
+                mod.run(ck, Build(extra_n0=["-D__OPTIMIZE__=1", "-D__OPTIMIZE_SIZE__=1", "-U__NO_INLINE__"]))
+            if "__FAST_MATH__" in srcs:
+                mod.run(ck, Build(extra_n0=["-D__OPTIMIZE__=1", "-D__FAST_MATH__=1", "-U__NO_INLINE__"]))
         rc = ck.finish()
     except Broken as e:
         msg = str(e).replace("\n", " | ")
